@@ -68,6 +68,12 @@ def fatal_set(w, t):
         if site == 's3':
             if s.get('op') == 'abort_multipart_upload':
                 continue
+            if s.get('op') == 'get_object' and s['exc'] in RETRYABLE_KINDS:
+                # a retryable error raised by the GetObject call itself counts
+                # against the same attempt budget as a stream error
+                retry_fired.append(exc)
+                per_range.setdefault(s.get('range'), []).append(exc)
+                continue
             fatal.append(exc)
         elif site == 'stream':
             if s['exc'] in RETRYABLE_KINDS:
@@ -287,7 +293,7 @@ def check_c03(w):
                 bad = None
                 if sf is not None and not _retryable_exc(sf):
                     bad = sf
-                if r.get('fault') is not None:
+                if r.get('fault') is not None and not _retryable_exc(r['fault']):
                     bad = r['fault']
                 if bad is not None:
                     w.violation('C03', 'retried-nonretryable',
